@@ -32,6 +32,7 @@ def attrs(msg):
     return (R.public_attrs(msg), str(msg), msg.serialize(), msg.identity)
 
 
+@core.guard
 def judge(case):
     from pyrtcm import RTCMMessage, RTCMReader  # pylint: disable=import-outside-toplevel
 
